@@ -320,6 +320,69 @@ def check_rebuild_exc(kind: int, a: int, b: int) -> bool:
             and cls.__name__ in str(out.__cause__) and "Traceback" in str(out.__cause__))
 
 
+class _Unsendable(Exception):
+    """A cause / context that cannot be pickled (it holds a lock), as a failed connection or a cursor would."""
+
+    def __init__(self, *a):
+        super().__init__(*a)
+        import threading
+        self.lock = threading.Lock()
+
+
+def check_exc_payload_sendable(kind: int, chain: int, a: int) -> bool:
+    """
+    pre: 0 <= kind <= 1 and 0 <= chain <= 4 and 0 <= a <= 3
+    post: _
+    """
+    # The worker puts _ResultItem(exception=_ExceptionWithTraceback(e)) on the result queue with a bare put(): if that
+    # payload cannot be pickled the *worker* dies and the whole pool breaks.  Containment therefore needs: whenever
+    # the task's exception itself is picklable, so is the payload - whatever hangs off the exception (explicit cause,
+    # implicit context, each picklable or not).  The chain travels as text in the remote traceback.
+    import pickle
+    kind, chain, a = _conc(kind, 1), _conc(chain, 4), _conc(a, 3)
+    cls = [ValueError, _TaskErr][kind]
+
+    def body():
+        try:
+            try:
+                if chain in (1, 3):
+                    raise KeyError("picklable-origin")
+                if chain in (2, 4):
+                    raise _Unsendable("unsendable-origin")
+                raise cls(a, "plain")
+            except (KeyError, _Unsendable) as origin:
+                if chain in (1, 2):
+                    raise cls(a, "from") from origin  # explicit cause
+                raise cls(a, "during")  # implicit context
+        except cls as e:
+            return e, _ExceptionWithTraceback(e)
+
+    try:
+        from crosshair.tracers import NoTracing, is_tracing
+        if is_tracing():
+            with NoTracing():
+                e, ewt = body()
+                blob = pickle.dumps(ewt)
+                out = pickle.loads(blob)
+        else:
+            e, ewt = body()
+            out = pickle.loads(pickle.dumps(ewt))
+    except ImportError:
+        e, ewt = body()
+        out = pickle.loads(pickle.dumps(ewt))
+    if type(out) is not cls or out.args != e.args or not isinstance(out.__cause__, _RemoteTraceback):
+        return False
+    text = str(out.__cause__)
+    if cls.__name__ not in text:
+        return False
+    # the origin of the chain is visible to the user in the remote traceback text
+    if chain in (1, 3) and "picklable-origin" not in text:
+        return False
+    if chain in (2, 4) and "unsendable-origin" not in text:
+        return False
+    return True
+
+
 def check_callbacks(kinds: List[int]) -> bool:
     """
     pre: len(kinds) <= 4
